@@ -476,12 +476,28 @@ func (v *fnVC) havocLoc(x *Ex, loc string, st *State, pos token.Pos) {
 			v.callOrd["frame"] = nfr + 1
 			goal := tFalse()
 			if g.Heap && idxExpr != "" {
+				ks, _ := c.typeFromString(g.Type)
+				key := x.Term(idxExpr, ks)
+				var alts []*T
 				// an entry keyed by an object allocated in this function is not visible to the caller
-				c2 := x.child()
-				c2.vars = x.vars
-				if ks, _ := c.typeFromString(g.Type); ks.Kind == KRef {
-					goal = mk(sapp(">=", x.Term(idxExpr, ks).S, v.entry.next().S), sBool)
+				if ks.Kind == KRef {
+					alts = append(alts, mk(sapp(">=", key.S, v.entry.next().S), sBool))
 				}
+				// or the entry is one of this function's own `assigns name[key]` locations
+				rv := v
+				if v.parent != nil && v.ct == nil {
+					rv = v.root()
+				}
+				mx := rv.exFor(v.entry, v.entry, nil)
+				for _, a := range fct.Assigns {
+					if strings.HasPrefix(a, name+"[") && strings.HasSuffix(a, "]") {
+						func() {
+							defer func() { _ = recover() }()
+							alts = append(alts, tEq(key, mx.Term(a[len(name)+1:len(a)-1], ks)))
+						}()
+					}
+				}
+				goal = tOr(alts...)
 			}
 			v.oblige("frame", fmt.Sprintf("frame#%d", nfr), fct.Props, "callee assigns ghost "+name+" which is outside `assigns`", v.pos(pos), v.reachNow(), goal, st)
 		}
@@ -729,6 +745,8 @@ func (v *fnVC) ret(i *ssa.Return, st *State) {
 		}
 	}
 	x := v.exFor(st, v.entry, vars)
+	x.resolve = v.resolver(i.Block(), st, nil)
+	v.useLemmas(x)
 	nret := v.ordinal[i]
 	for k, c := range v.ct.Ensures {
 		g := x.Bool(c.Expr)
@@ -787,4 +805,58 @@ func (v *fnVC) goStmt(i *ssa.Go, st *State) {
 		}
 	}
 	v.notes = append(v.notes, "go statement at "+v.pos(i.Pos())+": spawned call not executed in the proof (no interleaving semantics)")
+}
+
+// useLemmas assumes ground instances of proved lemmas named by `use LEMMA(args)` clauses
+// (the lemma's bound variables are replaced, in order, by the argument expressions evaluated here;
+// an argument that cannot be evaluated at this return - a local not defined on this path - skips the instance).
+func (v *fnVC) useLemmas(x *Ex) {
+	for _, u := range v.ct.Uses {
+		i := strings.Index(u, "(")
+		if i < 0 || !strings.HasSuffix(u, ")") {
+			fail("bad use clause %q", u)
+		}
+		name := strings.TrimSpace(u[:i])
+		var lem *Axiom
+		for _, ax := range v.w.specs.Axioms {
+			if ax.Name == name && ax.Lemma {
+				lem = ax
+			}
+		}
+		if lem == nil {
+			fail("use: no lemma named %q", name)
+		}
+		args := splitTop(u[i+1:len(u)-1], ',')
+		body := strings.TrimSpace(lem.Expr)
+		if !strings.HasPrefix(body, "forall ") {
+			fail("use: lemma %s is not universally quantified", name)
+		}
+		k := findTop(body, "::")
+		binders := splitTop(strings.TrimSpace(body[len("forall "):k]), ',')
+		if len(binders) != len(args) {
+			fail("use %s: %d arguments for %d bound variables", name, len(args), len(binders))
+		}
+		c := x.child()
+		ok := true
+		func() {
+			defer func() {
+				if r := recover(); r != nil {
+					if _, isSpec := r.(specErr); isSpec {
+						ok = false
+						return
+					}
+					panic(r)
+				}
+			}()
+			for j, b := range binders {
+				bf := strings.Fields(strings.TrimSpace(b))
+				so, _ := c.typeFromString(strings.Join(bf[1:], " "))
+				c.vars[bf[0]] = x.Term(strings.TrimSpace(args[j]), so)
+			}
+			inst := c.Bool(body[k+2:])
+			v.e.assume(tImp(v.reachNow(), inst))
+			v.e.usesLemma = append(v.e.usesLemma, name)
+		}()
+		_ = ok
+	}
 }
